@@ -1,5 +1,6 @@
 #![allow(dead_code)]
 mod acc;
+mod build;
 mod checks;
 mod explore;
 mod findings;
